@@ -114,9 +114,20 @@ def core (row : OpRow) (first : MapObj) (maps : List MapObj) : Option (State Val
   multiOp first.c (vcOut row first) (maps.map (norm (vcOut row first))) (cellF row first)
     (fillerOf row first) row.union row.fillFirst
 
-/-- the result of the empty-coverage early return: `make_empty_like(map_list[0])` -/
-def emptyLike (first : MapObj) : MapObj :=
-  { first with st := makeEmpty first.c first.vc [], cache := none }
+/-- the kind the call announces: a plain map of `dtype_out` when there is one, else the first
+    map's kind (the kind of the empty-coverage early return; the main path differs only for a
+    bit-packed first map, which it unpacks) -/
+def kindE (row : OpRow) (first : MapObj) : Kind := multiKindE first.kind row.dtypeOut
+
+/-- validity configuration of the empty result -/
+def vcE (row : OpRow) (first : MapObj) : VCfg Val :=
+  ⟨(kindE row first).blank first.sent, (kindE row first).valid first.sent⟩
+
+/-- the result of the empty-coverage early return: `make_empty_like(map_list[0])`, of the
+    requested output type when there is one (after the `fix:` commit) -/
+def emptyLike (row : OpRow) (first : MapObj) : MapObj :=
+  { first with kind := kindE row first, cache := none,
+               st := makeEmpty first.c (vcE row first) [] }
 
 /-- the result object of the main path -/
 def resultOf (row : OpRow) (first : MapObj) (st : State Val) : MapObj :=
@@ -134,7 +145,7 @@ def spec (row : OpRow) (maps : List MapObj) : Except Err MapObj :=
     | none =>
       if isWide first.kind && row.fillFirst then .error .runtime
       else if !anyCov row first maps then
-        .ok (emptyLike first)
+        .ok (emptyLike row first)
       else if row.promoted != (if isWide first.kind then "u1" else dtCode (dtOut row first)) then .error .value
       else if sentClash (vcOut row first) maps then .error .inexact
       else if fltClash row first maps then .error .inexact
@@ -223,7 +234,7 @@ theorem core_match_iff {o : Option (State Val)} {oc : State Val → Bool} {g : S
 theorem ok_iff (row : OpRow) (maps : List MapObj) (m' : MapObj) :
     apiMultiOp row maps = .ok m' ↔
       ∃ first rest, maps = first :: rest ∧ Accepts row first maps ∧
-        ((anyCov row first maps = false ∧ m' = emptyLike first) ∨
+        ((anyCov row first maps = false ∧ m' = emptyLike row first) ∨
          (anyCov row first maps = true ∧ promotedOk row first = true ∧
           sentClash (vcOut row first) maps = false ∧ fltClash row first maps = false ∧
           ∃ st, core row first maps = some st ∧ outClash row first st = false ∧
@@ -259,9 +270,9 @@ theorem ok_iff (row : OpRow) (maps : List MapObj) (m' : MapObj) :
       simp only []
       rw [ite_err_iff, ite_ok_iff, ite_err_iff, ite_err_iff, ite_err_iff,
         core_match_iff (g := resultOf row first)]
-      have e1 : (emptyLike first = m') ↔ (m' = emptyLike first) := eq_comm
+      have e1 : (emptyLike row first = m') ↔ (m' = emptyLike row first) := eq_comm
       unfold promotedOk
-      change _ ∧ _ ∧ _ ∧ (_ ∧ emptyLike first = m' ∨ _) ↔ _
+      change _ ∧ _ ∧ _ ∧ (_ ∧ emptyLike row first = m' ∨ _) ↔ _
       rw [e1]
       generalize (∀ m ∈ first :: rest, mapCheck row first m = none) = H at hall ⊢
       generalize anyCov row first (first :: rest) = ac
@@ -269,7 +280,7 @@ theorem ok_iff (row : OpRow) (maps : List MapObj) (m' : MapObj) :
       generalize fltClash row first (first :: rest) = fc
       generalize (∃ st, core row first (first :: rest) = some st ∧ outClash row first st = false ∧
         m' = resultOf row first st) = X
-      generalize (m' = emptyLike first) = Y
+      generalize (m' = emptyLike row first) = Y
       generalize isWide first.kind = iw
       generalize row.promoted = pr
       generalize dtCode (dtOut row first) = dc
@@ -626,6 +637,14 @@ theorem vcOut_blank_invalid (row : OpRow) (first : MapObj) (hr : isRecd first.ki
   · rw [h]; exact Kind.valid_blank_plain d first.sent
   · rw [h]; exact Kind.valid_blank_wide n first.sent
 
+/-- the blank cell of the empty result reads as unset -/
+theorem vcE_blank_invalid (row : OpRow) (first : MapObj) (hk : first.KindOk) :
+    (vcE row first).valid (vcE row first).sentinel = false := by
+  unfold vcE kindE multiKindE
+  cases parseDTCode row.dtypeOut with
+  | some d => exact Kind.valid_blank_plain d first.sent
+  | none => exact hk.blankInvalid
+
 theorem covered_norm (c : Cfg) (vc : VCfg Val) (m : MapObj) (k : Nat) :
     covered c (norm vc m) k = covered c m.st k := rfl
 
@@ -747,7 +766,7 @@ theorem ok_sem {row : OpRow} {maps : List MapObj} {m' : MapObj}
     (hok : ∀ m ∈ maps, m.WF ∧ m.KindOk) (h : apiMultiOp row maps = .ok m') :
     ∃ first rest, maps = first :: rest ∧ Accepts row first maps ∧
       m'.covord = first.covord ∧ m'.spord = first.spord ∧ m'.sent = first.sent ∧ m'.cache = none ∧
-      m'.kind = (if anyCov row first maps then kindOut row first else first.kind) ∧
+      m'.kind = (if anyCov row first maps then kindOut row first else kindE row first) ∧
       m'.WF ∧ m'.BlankInvalid ∧
       (anyCov row first maps = true → promotedOk row first = true ∧
         sentClash (vcOut row first) maps = false) ∧
@@ -762,16 +781,18 @@ theorem ok_sem {row : OpRow} {maps : List MapObj} {m' : MapObj}
   refine ⟨first, rest, rfl, hacc, ?_⟩
   rcases hcase with ⟨hac, rfl⟩ | ⟨hac, hpr, hcl, _, st, hst, _, rfl⟩
   · have hnc := (anyCov_false_iff row first _).1 hac
-    refine ⟨rfl, rfl, rfl, rfl, by rw [hac]; rfl, ?_, (hok first hfirst).2.blankInvalid,
+    refine ⟨rfl, rfl, rfl, rfl, by rw [hac]; rfl, ?_,
+      vcE_blank_invalid row first (hok first hfirst).2,
       (fun h => by rw [hac] at h; cases h), ?_, ?_⟩
-    · exact ⟨(hok first hfirst).1.1, inv_makeEmpty' _ _ [] List.nodup_nil (by simp)⟩
+    · exact ⟨(hok first hfirst).1.1,
+        inv_makeEmpty' first.c (vcE row first) [] List.nodup_nil (by simp)⟩
     · intro p hp
-      show abs first.c first.vc (makeEmpty first.c first.vc []) p = _
+      show abs first.c (vcE row first) (makeEmpty first.c (vcE row first) []) p = _
       rw [makeEmpty_abs']
       exact (denseOf_uncovered hacc hok _ _ _ p hp (hnc _ (covpix_lt first.c p hp))).symm
     · intro k hk
-      show covered first.c (makeEmpty first.c first.vc []) k = _
-      rw [covered_makeEmpty first.c first.vc [] List.nodup_nil k hk, hnc k hk]
+      show covered first.c (makeEmpty first.c (vcE row first) []) k = _
+      rw [covered_makeEmpty first.c (vcE row first) [] List.nodup_nil k hk, hnc k hk]
       simp
   · obtain ⟨st', hst', hI, habs, hcov⟩ := core_spec hacc hfirst hok hcl
     rw [hst] at hst'
